@@ -15,12 +15,13 @@ package c16
 //
 // These are the semantics gSelection.keepOne (grep_model_test.go) already
 // implements; this file adds the generator that makes each occurrence matter:
-// more records, a larger taxonomy, clades taken low on the lineages of distinct
-// records, broad patterns (so that a conjunction of 3-5 of them is not empty),
-// denser optional annotations, occurrences of different options interleaved on
-// the command line.  An occurrence is DECISIVE when removing it alone changes
-// the expected selection: only then does a defect that drops / duplicates one
-// occurrence of the list (first, middle or last) show.
+// more records, a larger taxonomy, broad patterns and values that all accept
+// one chosen record (so that a conjunction of 3-5 of them is not empty), values
+// of one option chosen independent of each other, and for every occurrence a
+// witness record that this occurrence alone decides; occurrences of different
+// options interleaved on the command line.  An occurrence is DECISIVE when
+// removing it alone changes the expected selection: only then does a defect
+// that drops / duplicates one occurrence of the list (first, middle or last) show.
 //
 // Domain decisions
 //   - obiannotate with selection options: the help texts are those of obigrep
@@ -60,13 +61,16 @@ import (
 
 func init() {
 	evid.Tests(
-		evid.Spec{Name: "TestGrepRepeated", Kind: "rapid", Quick: 1200, Thorough: 30000, QuickShards: 8, ThoroughShards: 8},
-		evid.Spec{Name: "TestAnnotateSelected", Kind: "rapid", Quick: 480, Thorough: 12000, QuickShards: 6, ThoroughShards: 6},
+		evid.Spec{Name: "TestGrepRepeated", Kind: "rapid", Quick: 960, Thorough: 16000, QuickShards: 8, ThoroughShards: 16},
+		evid.Spec{Name: "TestAnnotateSelected", Kind: "rapid", Quick: 420, Thorough: 8000, QuickShards: 6, ThoroughShards: 8},
 	)
 	evid.Reg("annotate_selected", checkAnnotateSelected)
 	ruleParts["grep_repeated"] = "TestGrepRepeated: obigrep with one or two of the nine repeatable options (-s -D -I -A -a -p -r -i --require-rank, drawn uniformly) given 3-5 times " +
-		"(the second 2-5 times), every other option 0-2 times, occurrences grouped or interleaved on the command line; 6-16 records (thorough up to 40), optional annotations on half of the records, " +
-		"taxonomies of 6-30 nodes, -r / -i clades taken at the taxon, its parent or grand-parent of distinct records, patterns of 1-2 letters read off the records mixed with the patterns of TestGrepSubsets; " +
+		"(the second 2-5 times), every other option 0-2 times, occurrences grouped or interleaved on the command line; 6-16 records or more (thorough up to 40), denser optional annotations, " +
+		"taxonomies of 6-45 nodes. One record (the passer) is given substance (2-3 definition words, 2-3 letter identifier base, 8+ nucleotides, most optional annotations, a rank-rich lineage); " +
+		"each value is the best of at most 8-12 candidates from the value generators of TestGrepSubsets plus 1-2 letter patterns and any-node clades: it accepts the passer (for -r: the first occurrence does) " +
+		"and leaves the most occurrences of the same option independent; then for every occurrence of a repeated option a witness record is built, equal to the passer but for one feature " +
+		"(a nucleotide, the definition, the identifier base, one annotation value or its absence, the taxon), chosen so that the reference interpreter decides differently with and without this occurrence. " +
 		"-v, --save-discarded, -o, paired inputs with the six modes, --max-cpu and --batch-size as in TestGrepSubsets. Oracle: the same reference interpreter and comparison as TestGrepSubsets " +
 		"(several -r are alternatives, several occurrences of any other option all apply). " +
 		"Non-trivial: some option is given at least 3 times, EVERY one of its occurrences is decisive (removing that occurrence alone changes the selection the reference interpreter expects) " +
@@ -463,6 +467,19 @@ func genGrepRepeatCase(rt *rapid.T, label string, pairedOK bool) grepCase {
 		}
 		if count["-s"] >= 2 && len(p.Seq) < 8 {
 			*p = p.withSeq(gDrawSeq(rt, "passer_seq", rapid.IntRange(8, 30).Draw(rt, "passer_len"), false))
+		}
+		if count["--require-rank"] >= 2 { // the taxon whose lineage carries the most rank labels
+			bestNode, bestLabels := 0, -1
+			for node := 0; node < c.Tree.N(); node++ {
+				labels := map[string]bool{}
+				for _, a := range c.Tree.PathToRoot(node) {
+					labels[c.Tree.Rank[a]] = true
+				}
+				if len(labels) > bestLabels {
+					bestNode, bestLabels = node, len(labels)
+				}
+			}
+			*p = p.withAttr(gAttr{Key: "taxid", Kind: "i", I: c.Tree.Taxid[bestNode]})
 		}
 		if count["-A"] >= 2 || count["-a"] >= 2 {
 			for _, k := range gOptKeys {
